@@ -32,7 +32,7 @@ def excName : Exc → String
   | .importError => "ImportError"
   | .attributeError => "AttributeError"
   | .nameError => "NameError"
-  | .other => "Other"
+  | .other _ => "Other"
   | .outOfFuel => "OUT-OF-FUEL"
   | .unknown => "UNKNOWN"
 
